@@ -106,7 +106,7 @@ class InsecureHomeKitProtocol(asyncio.Protocol):
         self.transport = transport
 
     def connection_lost(self, exception: Exception) -> None:
-        self.connection._connection_lost(exception)
+        self.connection._connection_lost(exception, self.transport)
         self._cancel_pending_requests()
 
     def _handle_timeout(self, fut: asyncio.Future[Any]) -> None:
@@ -568,11 +568,17 @@ class HomeKitConnection:
         self._drop_transport()
         self.is_secure = None
 
-    def _connection_lost(self, exception: Exception) -> None:
+    def _connection_lost(self, exception: Exception, transport: asyncio.Transport | None = None) -> None:
         """
         Called by a Protocol instance when eof_received happens.
         """
         logger.debug("Connection lost to %r: %s", self, exception)
+        if transport is not None and transport is not self.transport:
+            # A connection we already abandoned (dropped or replaced) went away.
+            # It must not tear down the connection in use or restart the connector.
+            if self.closing and self.transport is None:
+                self.closed = True
+            return
         self._drop_transport()
         if self.closing:
             self.closed = True
